@@ -485,3 +485,12 @@ _C16X = ["smpl_extract.structural:Traversable.children[realised]", "smpl_extract
 SPECS["C16"]["contracts"] += _C16X
 SPECS["C16"]["level_text"] = ("proved: a realised directory level is returned as it is (same list object, nothing written, the realiser not called again) and set_routines replaces only the "
                               "routine table - so what `ls` / export see at a level cannot depend on earlier requests; " + SPECS["C16"]["level_text"][len("proved: "):])
+SPECS["C06"]["contracts"].append("smpl_extract.base:Element.export_path[depth=3]")
+SPECS["C13"]["contracts"].append("smpl_extract.base:Element.export_path[depth=3]")
+SPECS["C06"]["level_text"] += "; Element.export_path yields the EXPORT names of the ancestors, outermost first, then the element's own (three-level chain)"
+SPECS["C13"]["post_scan"] = "while_loop_census"
+# while loops proved terminating only for fixed shapes elsewhere (C10 parse_path pieces<=3, C05/C06 naming loops n<=3/4): listed, not counted
+SPECS["C13"]["contracts"] += [k for k in (_UNIQ[:4] + ["smpl_extract.structural:Image.combine_stereo_routine[n=2]", "smpl_extract.structural:Traversable.parse_path[pieces=2]"])]
+SPECS["C13"]["level_text"] += (". Added: a census of every `while` loop of the package (15): each lies in a function under a termination obligation of this check - a ranking "
+                               "function for any input (11 loops), or complete unrolling for fixed shapes (the two naming loops, the path tokeniser, the parent-chain walk); a loop "
+                               "appearing in a function without such an obligation is reported as undecided")
